@@ -1,0 +1,36 @@
+//go:build verif
+
+// Contracts for package header, checked by /verif/engine (gvc).  This file
+// contains comments only; it is compiled only with the "verif" build tag.
+package header
+
+//@ func clearChecksum(head []byte)   props: C03
+//@   requires len(head) >= 12
+//@   ensures be32(head, 8) == 0
+//@   modifies head[*]
+
+//@ func patchChecksum(head []byte, checksum uint32)   props: C03
+//@   requires len(head) >= 12
+//@   ensures be32(head, 8) == uint32(2981146554 - checksum)
+//@   modifies head[*]
+
+//@ func checksum(data []byte) (sum uint32)   props: C03
+//@   modifies nothing
+
+//@ func Write(w io.Writer, scalerType uint32, tables map[string][]byte) (n int64, err error)   props: C18 C03
+//@   requires w != nil && len(tables) <= 65535
+//@   requires has(tables, "head") && len(tables["head"]) >= 12
+//@   ensures n == accepted(w) - old(accepted(w))
+//@   ensures (err != nil) == (wfaults(w) > old(wfaults(w)))
+//@   modifies accepted(w), wfaults(w), tables["head"][*]
+//@   loop 0
+//@     invariant len(tableNames) <= nseen(tables) && fresh(tableNames)
+//@     invariant seen(tables, "head") ==> len(tableNames) >= 1
+//@     invariant forall i int :: 0 <= i && i < len(tableNames) ==> len(tableNames[i]) == 4
+//@   loop 1
+//@     invariant len(records) == numTables && len(tableNames) == numTables
+//@     invariant forall i int :: 0 <= i && i < len(tableNames) ==> len(tableNames[i]) == 4
+//@     invariant be32(tables["head"], 8) == 0
+//@     exit_assert len(tableNames) == len(records)
+//@   loop 2
+//@     invariant totalSize == accepted(w) - old(accepted(w)) && wfaults(w) == old(wfaults(w))
